@@ -39,7 +39,7 @@ NeverRevised == [][O!IsPrefixOf(s.w, s'.w)]_vars
 Boundary ==
   \/ gs.conf # ""        \* (inside an unterminated conflict region the input is not a sequence of complete sections)
   \/ \A kd \in Kinds, f \in 1..NF, g \in 1..NF :
-     ((kd \in {"rename", "renmod", "copy"}) <=> (f # g)) =>
+     ((kd \in {"rename", "renmod", "copy", "renmode"}) <=> (f # g)) =>
        LET d == [c |-> "diff", f |-> f, g |-> g, kd |-> kd]
            k == Len(hist) + 1
            a == I!Step(s, k, d)
